@@ -1504,4 +1504,137 @@ theorem lookup_load (file : Settings) : (keys file).Nodup → ∀ (d : Settings)
         exact hn.1 (List.mem_map.mpr ⟨(k, v), h, rfl⟩)
       exact ih hn.2 (setVar d k1 v1) k v h
 
+/-! ## forms outside the guards: what the loaders do to them (the mirror the harness compares with) -/
+
+/-- every form of the history file is decoded on its own: a form never merges with, swallows or
+splits a neighbour, whatever blanks or tabs it contains (only a newline rune inside a line could) -/
+theorem decode_forms_independent (fs : List Form) (h : ∀ f ∈ fs, ∀ l ∈ f, NL ∉ l) :
+    decode (fs.flatMap tabAppend) = fs.filterMap (fun f => decodeLine (joinTab f)) := by
+  induction fs with
+  | nil => simp [decode_nil]
+  | cons f fs ih =>
+    have ih' := ih (fun g hg => h g (by simp [hg]))
+    cases f with
+    | nil =>
+      simp only [List.flatMap_cons, tabAppend, List.nil_append, List.filterMap_cons, joinTab]
+      have : decodeLine [] = none := by simp [decodeLine, trim, trimLeft, trimRight]
+      rw [this]; exact ih'
+    | cons a r =>
+      have hnl : NL ∉ joinTab (a :: r) := by
+        intro hm
+        rcases joinTab_mem (a :: r) NL hm with e | ⟨l, hl, hx⟩
+        · exact absurd e (by decide)
+        · exact h (a :: r) (by simp) l hl hx
+      simp only [List.flatMap_cons, tabAppend, List.filterMap_cons]
+      have e : joinTab (a :: r) ++ [NL] ++ List.flatMap tabAppend fs
+          = joinTab (a :: r) ++ NL :: List.flatMap tabAppend fs := by simp
+      rw [e]
+      unfold decode at ih' ⊢
+      rw [lines_append_nl _ _ hnl, List.filterMap_cons]
+      cases hd : decodeLine (joinTab (a :: r)) with
+      | none => simpa using ih'
+      | some g => simp [ih']
+
+/-- what `LoadExpanded` makes of a stashed form: every tab is a line break -/
+def normStash (f : Form) : Form := f.flatMap (pieces TAB)
+
+/-- the guard of the expanded encoding for forms that may contain tabs: lines non-empty and without
+newline; the form (with its tabs read as line breaks) is a complete text and no proper prefix of its
+lines is -/
+def stashTabOK (f : Form) : Bool :=
+  f.all (fun l => !l.isEmpty && l.all (fun c => c != NL)) && !f.isEmpty &&
+  full (expand (normStash f)) == some true &&
+  (List.range f.length).all (fun k => k == 0 || full (expand (normStash (f.take k))) == some false)
+
+structure StashTabSpec (f : Form) : Prop where
+  ne : f ≠ []
+  lineNe : ∀ l ∈ f, l ≠ []
+  noNL : ∀ l ∈ f, NL ∉ l
+  whole : full (expand (normStash f)) = some true
+  proper : ∀ k, k < f.length → k ≠ 0 → full (expand (normStash (f.take k))) = some false
+
+theorem stashTabOK_spec (f : Form) (h : stashTabOK f = true) : StashTabSpec f := by
+  unfold stashTabOK at h
+  simp only [Bool.and_eq_true, List.all_eq_true, List.mem_range] at h
+  obtain ⟨⟨⟨h1, h2⟩, h3⟩, h4⟩ := h
+  refine ⟨?_, ?_, ?_, ?_, ?_⟩
+  · intro e; subst e; simp at h2
+  · intro l hl e; have := (h1 l hl).1; subst e; simp at this
+  · intro l hl hm
+    have := (h1 l hl).2 NL hm
+    simp at this
+  · simpa using h3
+  · intro k hk hk0
+    have := h4 k hk
+    simp only [Bool.or_eq_true, beq_iff_eq] at this
+    rcases this with e | e
+    · exact absurd e hk0
+    · exact e
+
+theorem normStash_snoc (pre : Form) (l : Line) : normStash (pre ++ [l]) = normStash pre ++ pieces TAB l := by
+  simp [normStash, List.flatMap_append]
+
+theorem leLines_form_tab (f : Form) (hf : StashTabSpec f) (out : List Form) (more : List Content) :
+    ∀ (suf pre : Form), pre ++ suf = f → suf ≠ [] →
+      leLines ⟨expand (normStash pre), normStash pre, out⟩ (suf ++ more) =
+        leLines ⟨[], [], out ++ [normStash f]⟩ more := by
+  intro suf
+  induction suf with
+  | nil => intro pre _ h; exact absurd rfl h
+  | cons l suf ih =>
+    intro pre hpre _
+    have hlf : l ∈ f := by rw [← hpre]; simp
+    have hne : l ≠ [] := hf.lineNe l hlf
+    obtain ⟨c, cs, hl⟩ : ∃ c cs, l = c :: cs := by
+      cases l with
+      | nil => exact absurd rfl hne
+      | cons c cs => exact ⟨c, cs, rfl⟩
+    have hbuf : expand (normStash pre) ++ expand (pieces TAB l) = expand (normStash (pre ++ [l])) := by
+      rw [normStash_snoc, expand_append]
+    have hform : normStash pre ++ pieces TAB l = normStash (pre ++ [l]) := (normStash_snoc pre l).symm
+    cases suf with
+    | nil =>
+      have hfl : pre ++ [l] = f := by simpa using hpre
+      have hw : full (expand (normStash (pre ++ [l]))) = some true := by rw [hfl]; exact hf.whole
+      simp only [List.cons_append, List.nil_append, leLines]
+      have : leLine ⟨expand (normStash pre), normStash pre, out⟩ l = some ⟨[], [], out ++ [normStash f]⟩ := by
+        subst hl
+        simp only [leLine]
+        rw [hbuf, hform, hw, hfl]
+      rw [this]
+    | cons l2 suf2 =>
+      have hlen : (pre ++ [l]).length < f.length := by
+        rw [← hpre]; simp
+      have htake : f.take (pre ++ [l]).length = pre ++ [l] := by
+        rw [← hpre]
+        have : pre ++ l :: l2 :: suf2 = (pre ++ [l]) ++ (l2 :: suf2) := by simp
+        rw [this, List.take_left']
+        rfl
+      have hpart : full (expand (normStash (pre ++ [l]))) = some false := by
+        have := hf.proper (pre ++ [l]).length hlen (by simp)
+        rwa [htake] at this
+      have hstep : leLine ⟨expand (normStash pre), normStash pre, out⟩ l =
+          some ⟨expand (normStash (pre ++ [l])), normStash (pre ++ [l]), out⟩ := by
+        subst hl
+        simp only [leLine]
+        rw [hbuf, hform, hpart]
+      have := ih (pre ++ [l]) (by simpa using hpre) (by simp)
+      simp only [List.cons_append, leLines, hstep] at this ⊢
+      exact this
+
+/-- a stashed form with tabs is loaded as one form — its tabs read as line breaks — and nothing
+before or after it is affected -/
+theorem decodes_stashEnc_tab (f : Form) (h : stashTabOK f = true) : Decodes (stashEnc f) [normStash f] := by
+  intro out rest
+  have sp := stashTabOK_spec f h
+  unfold stashEnc
+  have : expand f ++ [NL] ++ rest = expand f ++ (NL :: rest) := by simp
+  rw [this, lines_expand_append f _ sp.noNL]
+  have h0 : lines (NL :: rest) = [] :: lines rest := by simp [lines]
+  rw [h0]
+  have := leLines_form_tab f sp out ([] :: lines rest) f [] (by simp) sp.ne
+  simp only [normStash, List.flatMap_nil, expand] at this
+  simp only [normStash]
+  rw [this, leLines_skip]
+
 end SlipVerif.History
